@@ -236,6 +236,22 @@ MAIN = r'''
                 }
                 for (String[] c : vrt.Trace.CKIN) out.println("CKIN " + i + " " + c[0] + " " + c[1]);
                 for (String p : vrt.Trace.PATCHES) out.println("PATCH " + i + " " + p);
+            } else if (parts[0].equals("U")) {
+                int i = Integer.parseInt(parts[1]);
+                out.println("BEGIN U " + i); out.flush();
+                for (int st = 0; st < 2; st++) {
+                    String tg = st == 0 ? "ENCU" : "ENCG";
+                    com.finproto.codec.ChecksumServiceFactory.verifEnabled = (st == 1);
+                    try {
+                        @ROOT@ obj = build(i);
+                        ByteBuf buf = Unpooled.buffer();
+                        obj.encode(buf);
+                        out.println(tg + " " + i + " " + vrt.Trace.hex(buf.writtenBytes()));
+                    } catch (StackOverflowError | Exception e) {
+                        out.println(tg + " " + i + " ERR " + clean(e));
+                    }
+                }
+                com.finproto.codec.ChecksumServiceFactory.verifEnabled = true;
             } else if (parts[0].equals("R")) {
                 String cid = parts[1];
                 out.println("BEGIN R " + cid); out.flush();
